@@ -37,7 +37,10 @@ Inductive ifrange := IfrAbsent | IfrStar | IfrTags (tags : list str) | IfrDate (
 
 (* the response's app_iter: a plain iterable of chunks (wrapped in AppIterRange) or an object
    with its own app_iter_range (static.FileIter over a file, reading `bs` bytes at a time) *)
-Inductive app_iter := AList (chunks : list str) | AFile (data : str) (bs : nat).
+Inductive app_iter :=
+| AList (chunks : list str)
+| AFile (data : str) (bs : nat)
+| ANoRange (chunks : list str).   (* an app_iter whose own app_iter_range(start, stop) returns None *)
 
 Record cin := mkIn {
   q_method : str;                 (* environ["REQUEST_METHOD"] *)
@@ -134,13 +137,15 @@ Definition app_chunks (a : app_iter) : list str :=
   match a with
   | AList cs => cs
   | AFile d bs => file_iter_range d 0 None bs
+  | ANoRange cs => cs
   end.
 
-(* Response.app_iter_range(start, stop), iterated *)
-Definition app_range_chunks (a : app_iter) (start stop : nat) : list str :=
+(* Response.app_iter_range(start, stop), iterated; None when the app_iter's own method declines *)
+Definition app_range_chunks (a : app_iter) (start stop : nat) : option (list str) :=
   match a with
-  | AList cs => air cs start stop
-  | AFile d bs => file_iter_range d start (Some stop) bs
+  | AList cs => Some (air cs start stop)
+  | AFile d bs => Some (file_iter_range d start (Some stop) bs)
+  | ANoRange _ => None
   end.
 
 (* what the WSGI server sees: status line, header list, the chunks of the body *)
@@ -150,18 +155,26 @@ Definition cond_resp_app (i : cin) : option (str * list (str * str) * list str) 
   | D304 => Some (S_304, filter_headers (r_headers i) [S_cl; S_ct], [])
   | D416 rg l =>
       let body := S_msg ++ range_str rg in
-      Some (S_416,
-            (S_CL, int_str (Z.of_nat (List.length body)))
-              :: (S_CR, content_range_str (CR None None (Some l)))
-              :: (S_CT, S_text_plain)
-              :: filter_headers (r_headers i) [S_cl; S_ct],
-            if head then [] else [body])
+      match mk_content_range None None (Some l) with      (* ContentRange(None, None, self.content_length) *)
+      | None => None                                      (* ValueError for a negative Content-Length *)
+      | Some c =>
+          Some (S_416,
+                (S_CL, int_str (Z.of_nat (List.length body)))
+                  :: (S_CR, content_range_str c)
+                  :: (S_CT, S_text_plain)
+                  :: filter_headers (r_headers i) [S_cl; S_ct],
+                if head then [] else [body])
+      end
   | D206 s e l =>
-      Some (S_206,
-            (S_CL, int_str (e - s))
-              :: (S_CR, content_range_str (CR (Some s) (Some e) (Some l)))
-              :: filter_headers (r_headers i) [S_cl],
-            if head then [] else app_range_chunks (r_app i) (Z.to_nat s) (Z.to_nat e))
+      match app_range_chunks (r_app i) (Z.to_nat s) (Z.to_nat e) with
+      | Some chunks =>                                    (* if app_iter is not None *)
+          Some (S_206,
+                (S_CL, int_str (e - s))
+                  :: (S_CR, content_range_str (CR (Some s) (Some e) (Some l)))
+                  :: filter_headers (r_headers i) [S_cl],
+                if head then [] else chunks)
+      | None => Some (r_status i, r_headers i, if head then [] else app_chunks (r_app i))
+      end
   | DFull => Some (r_status i, r_headers i, if head then [] else app_chunks (r_app i))
   | DRaise => None
   end.
